@@ -416,6 +416,8 @@ theorem validate_inv (sigValid : SigOracle) (cfg : CacheConfig)
     simp only
     refine ⟨?_, Or.inl ⟨rfl, rfl⟩⟩
     intro e he
+    split at he
+    · exact provenance_mono r (hinv e he)
     unfold cacheInsert at he
     cases hft : r.records.head?.map (·.ttl) with
     | none =>
@@ -683,12 +685,19 @@ theorem cache_sound_u32 (sigValid : SigOracle) (cfg : CacheConfig) (hist : List 
     [] hist _ (cache_provenanceG sigValid cfg serve hist)
     (fun r hr => ⟨hb r hr, hb r hr⟩) (by simp) hkey
 
+/-- **A failed DNSKEY lookup leaves the cache unchanged**: the RRset is Bogus for this response only
+("these could be transient errors that should be retried"); nothing is learnt, nothing is forgotten. -/
+theorem net_error_not_cached (sigValid : SigOracle) (cfg : CacheConfig) (c : Cache) (r : Request)
+    (hn : r.netError = true) (hl : noLookup r = false) (hmiss : cacheGetE c r.ck r.inst = none) :
+    validate sigValid cfg c r = (c, { isOk := false, proof := .bogus, adjustedTtl := none }, true) := by
+  simp [validate, validateG, hmiss, freshVerdict, hn, hl]
+
 /-! ### several RRSIGs per RRset; the 64-bit wall clock -/
 
-theorem firstCandidate_spec (keyName : Name) (keyType : Nat) (start : Nat) (sigs : List Rrsig)
-    (i : Nat) (sig : Rrsig) (h : firstCandidate keyName keyType start sigs = some (i, sig)) :
-    start ≤ i ∧ sigs[i - start]? = some sig ∧ isCandidate keyName keyType i sig = true ∧
-    ∀ j, j < i - start → ∀ s, sigs[j]? = some s → isCandidate keyName keyType (start + j) s = false := by
+theorem firstCandidate_spec (p : Nat → Rrsig → Bool) (start : Nat) (sigs : List Rrsig)
+    (i : Nat) (sig : Rrsig) (h : firstCandidate p start sigs = some (i, sig)) :
+    start ≤ i ∧ sigs[i - start]? = some sig ∧ p i sig = true ∧
+    ∀ j, j < i - start → ∀ s, sigs[j]? = some s → p (start + j) s = false := by
   induction sigs generalizing start with
   | nil => simp [firstCandidate] at h
   | cons x xs ih =>
@@ -717,36 +726,86 @@ theorem firstCandidate_spec (keyName : Name) (keyType : Nat) (start : Nat) (sigs
           rw [show start + (j + 1) = start + 1 + j by omega]; exact this
 
 /-- **The reported `rrsig_index` is an index into the unfiltered RRSIG list, and the request the code
-evaluates is about exactly that RRSIG**: it is the first candidate; every RRSIG before it is a
-non-candidate (foreign signer, DS owner as signer, beyond the RRSIG cap). -/
+evaluates is about exactly that RRSIG**: it is a candidate (so: signer is the owner or an ancestor, not
+the DS owner itself, not beyond the RRSIG cap, not the original DNSKEY query again), and — unless every
+lookup failed — every RRSIG before it is a non-candidate or one whose DNSKEY lookup failed. -/
 theorem toRequest_index (m : MultiRequest) (i : Nat) (h : m.toRequest.2 = some i) :
     m.rrsigs[i]? = some m.toRequest.1.rrsig ∧ m.toRequest.1.skip = false ∧
+    m.candidate i m.toRequest.1.rrsig = true ∧
     isCandidate m.keyName m.keyType i m.toRequest.1.rrsig = true ∧
-    ∀ j, j < i → ∀ s, m.rrsigs[j]? = some s → isCandidate m.keyName m.keyType j s = false := by
+    (m.toRequest.1.netError = false →
+      m.lookupFails m.toRequest.1.rrsig = false ∧
+      ∀ j, j < i → ∀ s, m.rrsigs[j]? = some s → (m.candidate j s && !m.lookupFails s) = false) := by
   unfold MultiRequest.toRequest at h ⊢
-  cases hf : firstCandidate m.keyName m.keyType 0 m.rrsigs with
-  | none => rw [hf] at h; simp at h
+  cases hf : firstCandidate (fun i sig => m.candidate i sig && !m.lookupFails sig) 0 m.rrsigs with
   | some p =>
     obtain ⟨i', sig⟩ := p
     rw [hf] at h
     simp only [Option.some.injEq] at h
     subst h
-    obtain ⟨_, h2, h3, h4⟩ := firstCandidate_spec _ _ 0 _ _ _ hf
+    obtain ⟨_, h2, h3, h4⟩ := firstCandidate_spec _ 0 _ _ _ hf
     simp only [Nat.sub_zero, Nat.zero_add] at h2 h4
-    exact ⟨h2, rfl, h3, h4⟩
+    simp only [Bool.and_eq_true, Bool.not_eq_true'] at h3
+    have hc : isCandidate m.keyName m.keyType i' sig = true := by
+      have := h3.1; simp only [MultiRequest.candidate, Bool.and_eq_true] at this; exact this.1
+    exact ⟨h2, rfl, h3.1, hc, fun _ => ⟨h3.2, h4⟩⟩
+  | none =>
+    rw [hf] at h
+    simp only at h ⊢
+    cases hg : firstCandidate m.candidate 0 m.rrsigs with
+    | none => rw [hg] at h; simp at h
+    | some p =>
+      obtain ⟨i', sig⟩ := p
+      rw [hg] at h
+      simp only [Option.some.injEq] at h
+      subst h
+      obtain ⟨_, h2, h3, _⟩ := firstCandidate_spec _ 0 _ _ _ hg
+      simp only [Nat.sub_zero] at h2
+      have hc : isCandidate m.keyName m.keyType i' sig = true := by
+        have := h3; simp only [MultiRequest.candidate, Bool.and_eq_true] at this; exact this.1
+      exact ⟨h2, rfl, h3, hc, fun hne => by simp at hne⟩
 
 /-- without a candidate nothing is Secure -/
 theorem toRequest_none (sigValid : SigOracle) (m : MultiRequest) (h : m.toRequest.2 = none) :
     (freshVerdict sigValid m.toRequest.1).proof = .bogus := by
   unfold MultiRequest.toRequest at h ⊢
-  cases hf : firstCandidate m.keyName m.keyType 0 m.rrsigs with
-  | none => simp [freshVerdict, noLookup]
+  cases hf : firstCandidate (fun i sig => m.candidate i sig && !m.lookupFails sig) 0 m.rrsigs with
   | some p => rw [hf] at h; simp at h
+  | none =>
+    rw [hf] at h
+    simp only at h ⊢
+    cases hg : firstCandidate m.candidate 0 m.rrsigs with
+    | none => simp [freshVerdict, noLookup]
+    | some p => rw [hg] at h; simp at h
+
+/-- **An RRSIG whose DNSKEY query would be the original query again is never the one evaluated**
+("Break verification cycle" in `verify_default_rrset`). -/
+theorem toRequest_no_cycle (m : MultiRequest) (i : Nat) (h : m.toRequest.2 = some i) :
+    cycleSkip m.origDnskey m.toRequest.1.rrsig = false := by
+  have := (toRequest_index m i h).2.2.1
+  simp only [MultiRequest.candidate, Bool.and_eq_true, Bool.not_eq_true'] at this
+  exact this.2
+
+/-- **When every DNSKEY lookup of an RRset fails, the evaluated request is a failed lookup** (by
+`net_error_not_cached`: Bogus, and nothing is cached). -/
+theorem toRequest_all_lookups_fail (m : MultiRequest)
+    (hall : ∀ s ∈ m.rrsigs, m.lookupFails s = true) (i : Nat) (h : m.toRequest.2 = some i) :
+    m.toRequest.1.netError = true := by
+  have hi := toRequest_index m i h
+  cases hne : m.toRequest.1.netError with
+  | true => rfl
+  | false =>
+    have h1 := (hi.2.2.2.2 hne).1
+    have hm : m.toRequest.1.rrsig ∈ m.rrsigs := List.mem_of_getElem? hi.1
+    rw [hall _ hm] at h1
+    cases h1
 
 theorem toRequest_clock (m : MultiRequest) (t : Nat) (h : clock32 t = clock32 m.clock) :
     ({ m with clock := t } : MultiRequest).toRequest = m.toRequest := by
+  have hc : ({ m with clock := t } : MultiRequest).candidate = m.candidate := rfl
+  have hl : ({ m with clock := t } : MultiRequest).lookupFails = m.lookupFails := rfl
   unfold MultiRequest.toRequest
-  simp only [h]
+  simp only [hc, hl, h]
 
 /-- **The verdict depends on the wall clock only through `clock mod 2³²`** (`current_time() as u32`):
 a step at clock `t` is the step at clock `t mod 2³²`, and clocks that differ by a multiple of 2³² give
@@ -754,7 +813,7 @@ the same step — in particular nothing "sticks" at `u32::MAX` from 2³² s on. 
 theorem verdict_clock_mod (sigValid : SigOracle) (cfg : CacheConfig) (c : Cache) (m : MultiRequest) :
     validateM sigValid cfg c { m with clock := m.clock % M32 } = validateM sigValid cfg c m := by
   unfold validateM
-  rw [toRequest_clock m _ (by simp [clock32, Nat.mod_mod])]
+  rw [toRequest_clock m _ (by simp [clock32])]
 
 theorem verdict_clock_period (sigValid : SigOracle) (cfg : CacheConfig) (c : Cache) (m : MultiRequest)
     (k : Nat) :
@@ -785,7 +844,9 @@ theorem cache_sound_multi (sigValid : SigOracle) (cfg : CacheConfig) (hist : Lis
   obtain ⟨m, hm, rfl⟩ := List.mem_map.1 hr
   refine ⟨?_, (hb m hm).1, (hb m hm).2⟩
   unfold MultiRequest.toRequest
-  split <;> exact clock32_lt _
+  split
+  · exact clock32_lt _
+  · split <;> exact clock32_lt _
 
 /-! ### concrete values: non-vacuity -/
 
@@ -802,7 +863,7 @@ def recA (ttl : Nat) (o : Bytes) : Record := ⟨nameA, 1, 1, ttl, .a o⟩
 def acceptAll : SigOracle := fun _ _ _ => true
 /-- validate `a. A 10.0.0.1` (TTL `ttl`) at validator time `now`, monotonic time `inst` -/
 def reqA (ttl now inst : Nat) : Request :=
-  ⟨[1], [(key0, .secure)], sig0, nameA, 1, [recA ttl [10, 0, 0, 1]], now, inst, false⟩
+  ⟨[1], [(key0, .secure)], sig0, nameA, 1, [recA ttl [10, 0, 0, 1]], now, inst, false, false⟩
 
 /-- `secure_implies_checks` / `ttl_le_remaining` are not vacuous: inside the window the verdict is
 Secure with TTL `min 3600 3600 (1010 − 1000) = 10`; one second after expiration, and at distance
@@ -831,7 +892,7 @@ undefined; it is now never Secure, like every RRSIG whose expiration is before i
 example :
     let sigW : Rrsig := { sig0 with input := { sig0.input with inception := 1010 + HALF } }
     let sigE : Rrsig := { sig0 with input := { sig0.input with inception := 2000, expiration := 1000 } }
-    let req : Rrsig → Nat → Request := fun sg now => ⟨[1], [(key0, .secure)], sg, nameA, 1, [recA 3600 [10, 0, 0, 1]], now, 0, false⟩
+    let req : Rrsig → Nat → Request := fun sg now => ⟨[1], [(key0, .secure)], sg, nameA, 1, [recA 3600 [10, 0, 0, 1]], now, 0, false, false⟩
     (freshVerdict acceptAll (req sigW 1009)).proof = .bogus ∧
     (freshVerdict acceptAll (req sigW 1010)).proof = .bogus ∧
     (freshVerdict acceptAll (req sigE 999)).proof = .bogus ∧
